@@ -89,4 +89,31 @@ theorem C01_offers_justified_by_the_definition (spec : WfSpec) (parentCtx inputs
     (List.mem_of_getElem? hq) _ hm
   exact ⟨q, hq, hcomp, hm, e, he, e1, e2, e3⟩
 
+/-- **C01**: a task nothing transitions into (a start task of the composed graph) never names a
+    predecessor — neither in a staged entry nor in a record — at any point of any history: it is
+    staged by the initialisation, by a retry or by a rerun only -/
+theorem C01_start_tasks_name_no_predecessor (spec : WfSpec) (parentCtx inputs : Val.Dict) (ops : List Op)
+    (hops : ∀ op ∈ ops, op.notRetryEvent) (n : String) (hroot : ∀ e ∈ (compose spec).edges, e.dst ≠ n) :
+    (∀ x ∈ (runOps E ops (init E spec parentCtx inputs)).st.staged, x.id = n → x.prev = []) ∧
+    (∀ r ∈ (runOps E ops (init E spec parentCtx inputs)).st.sequence, r.id = n → r.prev = []) := by
+  have hjt := C01_predecessors_decided_true E spec parentCtx inputs ops hops
+  have hne := C01_decisions_follow_graph_edges E spec parentCtx inputs ops
+  constructor
+  · intro x hx hid
+    cases hp : x.prev with
+    | nil => rfl
+    | cons p ps =>
+      exfalso
+      obtain ⟨q, hq, hm⟩ := hjt.staged x hx p (by rw [hp]; exact List.mem_cons_self)
+      obtain ⟨e, he, _, e2, _⟩ := hne q (List.mem_of_getElem? hq) _ hm
+      exact hroot e he (by rw [e2, hid])
+  · intro r hr hid
+    cases hp : r.prev with
+    | nil => rfl
+    | cons p ps =>
+      exfalso
+      obtain ⟨q, hq, hm⟩ := hjt.recs r hr p (by rw [hp]; exact List.mem_cons_self)
+      obtain ⟨e, he, _, e2, _⟩ := hne q (List.mem_of_getElem? hq) _ hm
+      exact hroot e he (by rw [e2, hid])
+
 end Orq
